@@ -117,6 +117,13 @@ func (s *Set) OlderText() *Source {
 			if !seen["i:"+id.Name] {
 				seen["i:"+id.Name] = true
 				fmt.Fprintf(&b, "  identity %s;\n", id.Name)
+				// ... and derives one from it, the base written without prefix or with the module's own: it
+				// names the identity of this revision, not the one of that name in the other revision
+				own := ""
+				if len(seen)%2 == 0 {
+					own = m.Prefix + ":"
+				}
+				fmt.Fprintf(&b, "  identity older-d-%s { base %s%s; }\n", id.Name, own, id.Name)
 			}
 		}
 	}
